@@ -2,6 +2,6 @@
 # usage: tools_seed_try.sh <PROP> <A|B> <harness> [vx run flags...]
 p=$1; w=$2; h=$3; shift 3
 wt=/tmp/seedtry_${p}_${w}_$$
-git -C /repo worktree add -q $wt HEAD && (cd $wt && git apply /verif/seeded/$p-$w/patch.diff) || { echo "patch does not apply"; git -C /repo worktree remove --force $wt; exit 3; }
+git -C /repo worktree add -q $wt HEAD && (cd $wt && git apply /verif/seeded/$p-$w${SFX}/patch.diff) || { echo "patch does not apply"; git -C /repo worktree remove --force $wt; exit 3; }
 VERIF_REPO=$wt timeout 1500 /verif/bin/vx run $h "$@" 2>&1 | grep -E "^paths|race analysis|VIOLATION|DEADLOCK|PANIC|INCONC" | head -4
 git -C /repo worktree remove --force $wt
